@@ -11,6 +11,8 @@
 (*   GN  anonymous call with named inputs  p <-- e, q <-- e                *)
 (*   GCA cs[i].x <-- e : a port of an element of a component array, in a    *)
 (*       loop (CCA: the constraint on the same port in the same loop)       *)
+(*   GI1 / GI2  s3 <-- e in the then- / else-arm of one `if`: two statements *)
+(*       assigning the same signal (C3: a constraint on s3)                 *)
 (*   GCP c2.x <-- n : a port assigned from a parameter, alone in a branch   *)
 (*       (a basic block that touches no signal of the template itself)      *)
 (* Constraint items (each mentions the signals listed in Mentions):        *)
@@ -27,16 +29,16 @@ EXTENDS Integers, Sequences, FiniteSets, TLC, Json, SequencesExt
 
 CONSTANTS MaxItems
 
-Assigning == {"G1", "GR", "GA", "GC", "GT", "GN", "GCA", "GCP"}
-Constraining == {"C1", "C1b", "C2", "CA", "CC", "CT", "Q", "QR", "C0", "CN1", "CN2", "CCA"}
+Assigning == {"G1", "GR", "GA", "GC", "GT", "GN", "GCA", "GCP", "GI1", "GI2"}
+Constraining == {"C1", "C1b", "C2", "CA", "CC", "CT", "Q", "QR", "C0", "CN1", "CN2", "CCA", "C3"}
 Items == Assigning \cup Constraining
 \* the signals (with access text) an assigning item assigns with `<--`
 Assigns == [i \in Assigning |->
-  CASE i = "G1" -> {"s1"} [] i = "GR" -> {"s2"} [] i = "GA" -> {"sa[i]"} [] i = "GC" -> {"c.x"} [] i = "GT" -> {"t1", "t2"} [] i = "GN" -> {"p", "q"} [] i = "GCA" -> {"cs[i].x"} [] i = "GCP" -> {"c2.x"}]
+  CASE i = "G1" -> {"s1"} [] i = "GR" -> {"s2"} [] i = "GA" -> {"sa[i]"} [] i = "GC" -> {"c.x"} [] i = "GT" -> {"t1", "t2"} [] i = "GN" -> {"p", "q"} [] i = "GCA" -> {"cs[i].x"} [] i = "GCP" -> {"c2.x"} [] i = "GI1" -> {"s3"} [] i = "GI2" -> {"s3"}]
 Mentions == [i \in Constraining |->
   CASE i = "C1" -> {"s1"} [] i = "C1b" -> {"s1"} [] i = "C2" -> {"s2"} [] i = "CA" -> {"sa[i]"} [] i = "CC" -> {"c.x"} [] i = "CT" -> {"t1"}
     [] i = "Q" -> {"s1"} [] i = "QR" -> {"s2"} [] i = "C0" -> {}
-    [] i = "CN1" -> {"s1"} [] i = "CN2" -> {"s1"} [] i = "CCA" -> {"cs[i].x"}]      \* anonymous call with two `<==` inputs, s1 as first / second input
+    [] i = "CN1" -> {"s1"} [] i = "CN2" -> {"s1"} [] i = "CCA" -> {"cs[i].x"} [] i = "C3" -> {"s3"}]      \* anonymous call with two `<==` inputs, s1 as first / second input
 
 VARIABLE prog        \* [items, nest ("none" / "if" / "loop"), rhs ("q": quadratic right-hand sides, "nq": non-quadratic), kind]
 Init == prog \in [items : {S \in SUBSET Items : Cardinality(S) <= MaxItems /\ S \cap Assigning # {}},
